@@ -6,6 +6,7 @@
 #include <glm/gtx/transform.hpp>
 #include <glm/gtx/matrix_decompose.hpp>
 #include <glm/gtc/quaternion.hpp>
+#include <glm/gtx/rotate_vector.hpp>
 using namespace orc;
 typedef long double LD;
 #ifdef GLM_FORCE_LEFT_HANDED
@@ -28,6 +29,15 @@ template<class T> static void run(Rng& g, int n) {
 	for (int it = 0; it < n; ++it) {
 		glm::mat<4, 4, T> M; for (int c = 0; c < 4; ++c) for (int r = 0; r < 4; ++r) M[c][r] = (T)g.real(-2, 2); M4 LM = toL(M); LD tol = 64 * eps * (1 + nrm(LM)) * 4;
 		glm::vec<3, T> v((T)g.real(-3, 3), (T)g.real(-3, 3), (T)g.real(-3, 3)); T ang = (T)g.real(-13, 13); glm::vec<3, T> axis((T)g.real(-1, 1), (T)g.real(-1, 1), (T)g.real(-1, 1)); if (it % 7 == 0) axis *= (T)1e-3; if (it % 11 == 0) axis *= (T)50;
+		// gtx/rotate_vector: rotateX/Y/Z and rotate(v, angle, axis) on vec3 and vec4 against the Rodrigues matrix of the coordinate axis
+		{ LD vt = 64 * eps * 8; glm::vec<4, T> v4(v, (T)g.real(-2, 2));
+		  for (int ax = 0; ax < 3; ++ax) { M4 E = rodr(ang, ax == 0, ax == 1, ax == 2); LD ex[3]; for (int r = 0; r < 3; ++r) ex[r] = E.a[0][r] * v.x + E.a[1][r] * v.y + E.a[2][r] * v.z;
+			glm::vec<3, T> r3 = ax == 0 ? glm::rotateX(v, ang) : ax == 1 ? glm::rotateY(v, ang) : glm::rotateZ(v, ang); glm::vec<4, T> r4 = ax == 0 ? glm::rotateX(v4, ang) : ax == 1 ? glm::rotateY(v4, ang) : glm::rotateZ(v4, ang);
+			std::string fn = std::string(ax == 0 ? "rotateX" : ax == 1 ? "rotateY" : "rotateZ"); std::string in = "v=(" + str((double)v.x) + "," + str((double)v.y) + "," + str((double)v.z) + ") angle=" + str((double)ang);
+			count(fn + "_3" + ty); for (int r = 0; r < 3; ++r) if (!(fabsl((LD)r3[r] - ex[r]) <= vt)) { fail(fn + "_3" + ty, "value", in, str((double)ex[r]), str((double)r3[r])); break; }
+			count(fn + "_4" + ty); for (int r = 0; r < 3; ++r) if (!(fabsl((LD)r4[r] - ex[r]) <= vt) || r4.w != v4.w) { fail(fn + "_4" + ty, "value", in, str((double)ex[r]), str((double)r4[r])); break; } }
+		  { glm::vec<3, T> nax = glm::normalize(axis); M4 E = rodr(ang, nax.x, nax.y, nax.z); glm::vec<3, T> r3 = glm::rotate(v, ang, nax); glm::vec<4, T> r4 = glm::rotate(v4, ang, nax); count("rotate_vector" + ty);
+			for (int r = 0; r < 3; ++r) { LD e = E.a[0][r] * v.x + E.a[1][r] * v.y + E.a[2][r] * v.z; if (!(fabsl((LD)r3[r] - e) <= vt * 4 && fabsl((LD)r4[r] - e) <= vt * 4)) { fail("rotate_vector" + ty, "value", "angle=" + str((double)ang), str((double)e), str((double)r3[r])); break; } } } }
 		{ M4 E = ident(); E.a[3][0] = v.x; E.a[3][1] = v.y; E.a[3][2] = v.z; count("translate" + ty); if (!(diff(glm::translate(M, v), mul(LM, E)) <= tol * 4)) fail("translate" + ty, "value", ms(M), "M*T(v)", "differs"); }
 		{ M4 E = ident(); E.a[0][0] = v.x; E.a[1][1] = v.y; E.a[2][2] = v.z; count("scale" + ty); if (!(diff(glm::scale(M, v), mul(LM, E)) <= tol * 4)) fail("scale" + ty, "value", ms(M), "M*S(v)", "differs"); if (!(diff(glm::scale_slow(M, v), mul(LM, E)) <= tol * 4)) fail("scale_slow" + ty, "value", ms(M), "M*S(v)", "differs"); }
 		{ M4 E = rodr(ang, axis.x, axis.y, axis.z); count("rotate" + ty); std::string in = "angle=" + str((double)ang) + " axis=(" + str((double)axis.x) + "," + str((double)axis.y) + "," + str((double)axis.z) + ")";
